@@ -56,7 +56,8 @@ func TestVerif_C32_Reap(t *testing.T) {
 		}
 		dir, err := os.MkdirTemp("", "c32r-")
 		if err != nil {
-			rt.Skip("tempdir")
+			rec.Label("inconclusive:tempdir")
+			return
 		}
 		defer os.RemoveAll(dir)
 		wd := time.AfterFunc(150*time.Second, func() {
